@@ -41,10 +41,20 @@ def warmup():
     mpr.mpr_penetration(A, A)
 
 
+# states of the thorough tier (three deviations) that carry a recorded finding: also part of the quick tier, so that the finding is
+# re-examined (and its KNOWN-FINDING line printed) on every run
+REGRESSION = [
+    {'ta': 'cone', 'tb': 'box', 'pl': 17, 'u': 3, 'oa': 9, 'ob': 0, 'sa': 0, 'sb': 0, 'fa': 0, 'ma': 0, 'mb': 0},
+    {'ta': 'disk', 'tb': 'cone', 'pl': 17, 'u': 5, 'oa': 0, 'ob': 29, 'sa': 0, 'sb': 0, 'fa': 0, 'ma': 0, 'mb': 0},
+]
+
+
 def enumerate_states(tier, seed):
     states = []
     for ta, tb in itertools.product(sc.TYPES, sc.TYPES):
         states += gs.enumerate_custom(ta, tb, c07.ALPH, 3 if tier == "thorough" else 2)
+    have = {repr(sorted(d.items())) for d in states}
+    states += [dict(d) for d in REGRESSION if repr(sorted(d.items())) not in have]
     return states, {"bound_completed": "deviation bound %d over 9 coordinates (9 overlapping placements x 9 directions x 7x7 orientations x "
                                        "4x4 sizes x offsets x margins), all 100 ordered type pairs" % (3 if tier == "thorough" else 2), "exhaustive": True}
 
